@@ -66,6 +66,9 @@ ConstOK == (Rec.op = "const" /\ Done) =>
 CastOK == (Rec.op = "cast" /\ Done) =>
     /\ IF IsList(Rec.ret) THEN ListEq(R, X) ELSE DenEq(R, X, E)
     /\ Rec.ret.t = (CASE Rec.to = "as_monomial" -> "M" [] Rec.to = "as_polynomial" -> "Q" [] OTHER -> "L")
+\* (A + B) - B and (B + A) - B denote A, also when B is twelve orders of magnitude larger than A (all numbers involved are
+\* exactly representable in double precision; only A, whose coefficients are small dyadics, enters the comparison)
+CancelOK == (Rec.op = "cancel" /\ Done) => DenEq(R, X, E)
 FrameOK == Done => (Has("x1") => Rec.x1 = Rec.x) /\ (Has("y1") => Rec.y1 = Rec.y)
 \* unsupported combinations are refused explicitly (NotImplementedError), never answered wrongly
 RefuseOK == Has("refused") => Rec.refused = "NotImplementedError" /\ Rec.expect_refuse = TRUE
